@@ -123,6 +123,73 @@ def checkpointed_ops(ops):
     return out
 
 
+_USER_MATH = {}
+
+
+def _user_math(api):
+    """sin / cos / exp / tanh / integer power as USER primitives (raw NumPy inside), their rules registered
+    through autograd.extend (api 'new': defvjp + defjvp) or through the deprecated per-primitive methods
+    (api 'old': .defvjp(g, ans, vs, gvs, x) and .defgrad; reverse mode only). Rules are written with
+    autograd.numpy, so they are differentiable to any order."""
+    if api in _USER_MATH:
+        return _USER_MATH[api]
+    import autograd.numpy as anp
+
+    raw = {"sin": lambda x: onp.sin(x), "cos": lambda x: onp.cos(x), "exp": lambda x: onp.exp(x), "tanh": lambda x: onp.tanh(x), "pow": lambda x, n: onp.asarray(x) ** n if onp.ndim(x) else x**n}
+    der = {
+        "sin": lambda ans, x: anp.cos(x),
+        "cos": lambda ans, x: -anp.sin(x),
+        "exp": lambda ans, x: ans,
+        "tanh": lambda ans, x: 1.0 - ans * ans,
+        "pow": lambda ans, x, n: n * x ** (n - 1),
+    }
+    out = {}
+    if api == "new":
+        from autograd.extend import defjvp, defvjp, primitive
+
+        for k in raw:
+            f = primitive(raw[k])
+            d = der[k]
+            defvjp(f, (lambda d: lambda ans, *a: lambda g: g * d(ans, *a))(d))
+            defjvp(f, (lambda d: lambda g, ans, *a: g * d(ans, *a))(d))
+            out["fn:" + k] = f
+    else:
+        from autograd.core import primitive  # the wrapper that still carries the deprecated methods
+
+        with warnings.catch_warnings():
+            warnings.simplefilter("ignore")
+            for i, k in enumerate(raw):
+                f = primitive(raw[k])
+                d = der[k]
+                if i % 2 == 0:
+                    f.defvjp((lambda d: lambda g, ans, vs, gvs, *a: g * d(ans, *a))(d))
+                else:
+                    f.defgrad((lambda d: lambda ans, *a: lambda g: g * d(ans, *a))(d))
+                out["fn:" + k] = f
+    _USER_MATH[api] = out
+    return out
+
+
+def dialect_ops(ops, dialect):
+    """The same nestings written in another 'dialect': every variable read and every inner derivative value
+    passed through copy.copy / copy.deepcopy (identity-valued Python protocols on tracers), or every
+    elementary function replaced by a user-defined primitive."""
+    import copy
+
+    out = dict(ops)
+    if dialect in ("copy", "deepcopy"):
+        cp = copy.copy if dialect == "copy" else copy.deepcopy
+        out["wrap:v"] = cp
+        out["wrap:D"] = cp
+    elif dialect == "user_new":
+        out.update(_user_math("new"))
+    elif dialect == "user_old":
+        out.update(_user_math("old"))
+    else:
+        raise ValueError(dialect)
+    return out
+
+
 def threaded_ops(ops):
     """The same operators, each evaluated in a worker thread that is started (and joined) at the point of
     the call - i.e. inside the enclosing traced function when the operator is an inner level."""
@@ -278,6 +345,15 @@ def enumerate_specs(tier, seed):
                 specs.append({"depth": 2, "ops": list(ops), "masks": [0, m1], "template": t, "allvec": True})
     for _ in range(300 if tier == "quick" else 3000):
         specs.append({"depth": 3, "ops": [str(o) for o in rng.choice(OPNAMES, size=3)], "masks": [0, int(rng.integers(0, 2)), int(rng.integers(0, 4))], "template": int(rng.integers(0, 3)), "allvec": True})
+    # other dialects of the same nestings: values passed through copy / deepcopy, elementary functions as user
+    # primitives (extension API, all operators; deprecated registration methods, reverse operators only)
+    for dialect in ("copy", "deepcopy", "user_new", "user_old"):
+        pool = REV if dialect == "user_old" else OPNAMES
+        for ops in itertools.product(pool, repeat=2):
+            for m1 in range(2):
+                specs.append({"depth": 2, "ops": list(ops), "masks": [0, m1], "template": (len(specs)) % 3, "dialect": dialect})
+        for _ in range(120 if tier == "quick" else 2000):
+            specs.append({"depth": 3, "ops": [str(o) for o in rng.choice(pool, size=3)], "masks": [0, int(rng.integers(0, 2)), int(rng.integers(0, 4))], "template": int(rng.integers(0, 3)), "dialect": dialect})
     # inner evaluation points that are plain constants (inner variable not a tracer of the enclosing level)
     extra = []
     for sp in specs:
@@ -330,6 +406,10 @@ def _run_spec(res, spec, ops, anp):
     if spec.get("ckpt"):
         sig["ckpt"] = True
         ops = checkpointed_ops(ops)
+    if spec.get("dialect"):
+        sig["dialect"] = spec["dialect"]
+        ops = dialect_ops(ops, spec["dialect"])
+        res["counters"]["dialect_nestings"] = res["counters"].get("dialect_nestings", 0) + 1
     if spec.get("threaded"):
         sig["threaded"] = True
         ops = threaded_ops(ops)
